@@ -9,7 +9,8 @@ Import ListNotations.
 Inductive op :=
 | OSet (g : grid)
 | OMove (g : grid)
-| OSwitch (k : onoff) (x y : sel).
+| OSwitch (k : onoff) (x y : sel)
+| OFail.                       (* the kernel itself raises here: failing assert, bad lookup or index *)
 
 (* ---------- implementation model ---------- *)
 Record ist := mkist { tr : list action; cur : option grid }.
@@ -44,6 +45,7 @@ Definition istep (s : ist) (o : op) : res ist :=
           (* the action class is chosen from the run-time selector values *)
           Ok (mkist (tr s ++ [ASwitch k (form_of x) (form_of y) x y; AWay [c]]) (Some c))
       end
+  | OFail => Err EOther
   end.
 
 Fixpoint irun (s : ist) (ops : list op) : res ist :=
@@ -63,6 +65,7 @@ Inductive rst :=
 
 Definition rstep (s : rst) (o : op) : res rst :=
   match s, o with
+  | _, OFail => Err EOther
   | RIdle, OSet g => Ok (RActive [] [g] g)
   | RIdle, _ => Err EInterp                       (* AOD used before any set_loc *)
   | RActive done seg pos, OSet g => Ok (RActive (done ++ [AWay seg]) [g] g)
